@@ -128,6 +128,8 @@ class ArgParser:
         """
         if args is None:
             args = sys.argv[1:]
+        else:
+            args = list(args)  # any sequence; the caller's object is not modified
 
         if not args and self._help_if_no_args:
             print("appending help option")
